@@ -4,49 +4,51 @@
 (* and every C05 invariant is evaluated after every event.                                                *)
 EXTENDS ThreadPoolData, Json, IOUtils
 Log == ndJsonDeserialize(IOEnv.TRACE)
-VARIABLES l, pend
+\* cbl[t]: the loop whose thread must run the completion callback of task t ("M": the pool's / work thread's own loop, "B": the loop
+\* named in the call, WorkThread only)
+VARIABLES l, pend, cbl
 ASSUME TLCSet(42, 0)
-tvars == <<dvars, l, pend>>
+tvars == <<dvars, l, pend, cbl>>
 Ev == Log[l]
 IsEv(e) == l <= Len(Log) /\ Log[l].e = e /\ l' = l + 1
-Skip(e) == IsEv(e) /\ UNCHANGED dvars /\ UNCHANGED pend
+Skip(e) == IsEv(e) /\ UNCHANGED dvars /\ UNCHANGED <<pend, cbl>>
 
-TInit == DInit /\ l = 1 /\ pend = [t |-> 0, cb |-> FALSE, prio |-> 0]
+TInit == DInit /\ l = 1 /\ pend = [t |-> 0, cb |-> FALSE, prio |-> 0, loop |-> "M"] /\ cbl = [t \in Tasks |-> "M"]
 TReset ==
-  /\ IsEv("Reset") /\ pend' = [t |-> 0, cb |-> FALSE, prio |-> 0]
+  /\ IsEv("Reset") /\ pend' = [t |-> 0, cb |-> FALSE, prio |-> 0, loop |-> "M"] /\ cbl' = [t \in Tasks |-> "M"]
   /\ minT' = 0 /\ maxT' = 0 /\ ready' = FALSE /\ undo' = [k \in Levels |-> <<>>] /\ doing' = {} /\ idle' = {} /\ threads' = {}
   /\ stopFlag' = FALSE /\ exiting' = {} /\ collected' = {} /\ left' = {}
   /\ accepted' = {} /\ hasCb' = {} /\ taken' = [t \in Tasks |-> None] /\ began' = [t \in Tasks |-> 0] /\ ended' = {} /\ erased' = {}
   /\ cancelledOk' = {} /\ dropped' = {} /\ cbRan' = [t \in Tasks |-> 0] /\ pendSpawn' = {} /\ insec' = {} /\ lastQ' = [k |-> "none"]
 \* the level a task is queued at is a function of the priority the caller asked for (clamped to -2..2): level = prio + 2
 LevelOf(prio) == IF prio + 2 < 0 THEN 0 ELSE IF prio > 2 THEN 4 ELSE prio + 2
-TSubmit == IsEv("submit") /\ pend' = [t |-> Ev.t, cb |-> Ev.cb, prio |-> Ev.prio] /\ UNCHANGED dvars
+TSubmit == IsEv("submit") /\ pend' = [t |-> Ev.t, cb |-> Ev.cb, prio |-> Ev.prio, loop |-> Ev.loop] /\ UNCHANGED dvars /\ UNCHANGED cbl
 TNext ==
   \/ TReset \/ TSubmit
   \/ Skip("init_ret") \/ Skip("cleanup_ret")
-  \/ IsEv("spawn") /\ DSpawn(Ev.w) /\ Ev.n = Cardinality(threads') /\ UNCHANGED pend
-  \/ IsEv("init") /\ DInitialize(Ev.min, Ev.max) /\ UNCHANGED pend
-  \/ IsEv("exec") /\ pend.t = Ev.t /\ Ev.lvl = LevelOf(pend.prio) /\ DExec(Ev.t, Ev.lvl, pend.cb) /\ UNCHANGED pend
-  \/ IsEv("status") /\ DStatus(Ev.t, Ev.ans) /\ UNCHANGED pend
-  \/ IsEv("cancel") /\ DCancel(Ev.t, Ev.ans) /\ UNCHANGED pend
-  \/ IsEv("collect") /\ Ev.n = Cardinality(threads) /\ DCollect(Ev.flag) /\ UNCHANGED pend
-  \/ IsEv("flag") /\ DSetFlag /\ UNCHANGED pend
-  \/ IsEv("joined") /\ collected \subseteq left /\ DJoined /\ UNCHANGED pend      \* cleanup joined every worker it took over
-  \/ IsEv("exit_decide") /\ DExitDecide(Ev.w, FALSE) /\ UNCHANGED pend
-  \/ IsEv("exit_free") /\ DExitFree(Ev.w, Ev.found) /\ UNCHANGED pend
-  \/ IsEv("wait") /\ DWait(Ev.w) /\ UNCHANGED pend
-  \/ IsEv("woken") /\ DWoken(Ev.w, Ev.flag) /\ UNCHANGED pend
-  \/ IsEv("pop") /\ DPop(Ev.w, Ev.t, FALSE, TRUE) /\ UNCHANGED pend
-  \/ IsEv("unlocked") /\ DUnlocked(Ev.w) /\ UNCHANGED pend
-  \/ IsEv("mark") /\ DMark(Ev.w, Ev.t) /\ UNCHANGED pend
-  \/ IsEv("body_begin") /\ DBodyBegin(Ev.w, Ev.t) /\ UNCHANGED pend
+  \/ IsEv("spawn") /\ DSpawn(Ev.w) /\ Ev.n = Cardinality(threads') /\ UNCHANGED <<pend, cbl>>
+  \/ IsEv("init") /\ DInitialize(Ev.min, Ev.max) /\ UNCHANGED <<pend, cbl>>
+  \/ IsEv("exec") /\ pend.t = Ev.t /\ Ev.lvl = LevelOf(pend.prio) /\ DExec(Ev.t, Ev.lvl, pend.cb) /\ cbl' = [cbl EXCEPT ![Ev.t] = pend.loop] /\ UNCHANGED pend
+  \/ IsEv("status") /\ DStatus(Ev.t, Ev.ans) /\ UNCHANGED <<pend, cbl>>
+  \/ IsEv("cancel") /\ DCancel(Ev.t, Ev.ans) /\ UNCHANGED <<pend, cbl>>
+  \/ IsEv("collect") /\ Ev.n = Cardinality(threads) /\ DCollect(Ev.flag) /\ UNCHANGED <<pend, cbl>>
+  \/ IsEv("flag") /\ DSetFlag /\ UNCHANGED <<pend, cbl>>
+  \/ IsEv("joined") /\ collected \subseteq left /\ DJoined /\ UNCHANGED <<pend, cbl>>      \* cleanup joined every worker it took over
+  \/ IsEv("exit_decide") /\ DExitDecide(Ev.w, FALSE) /\ UNCHANGED <<pend, cbl>>
+  \/ IsEv("exit_free") /\ DExitFree(Ev.w, Ev.found) /\ UNCHANGED <<pend, cbl>>
+  \/ IsEv("wait") /\ DWait(Ev.w) /\ UNCHANGED <<pend, cbl>>
+  \/ IsEv("woken") /\ DWoken(Ev.w, Ev.flag) /\ UNCHANGED <<pend, cbl>>
+  \/ IsEv("pop") /\ DPop(Ev.w, Ev.t, FALSE, TRUE) /\ UNCHANGED <<pend, cbl>>
+  \/ IsEv("unlocked") /\ DUnlocked(Ev.w) /\ UNCHANGED <<pend, cbl>>
+  \/ IsEv("mark") /\ DMark(Ev.w, Ev.t) /\ UNCHANGED <<pend, cbl>>
+  \/ IsEv("body_begin") /\ DBodyBegin(Ev.w, Ev.t) /\ UNCHANGED <<pend, cbl>>
   \/ IsEv("body") /\ Ev.worker = TRUE /\ taken[Ev.t] # None /\ began[Ev.t] = 1 /\ Ev.t \notin ended   \* body ran on a worker, once
-                  /\ UNCHANGED dvars /\ UNCHANGED pend
-  \/ IsEv("body_end") /\ DBodyEnd(Ev.w, Ev.t) /\ UNCHANGED pend
-  \/ IsEv("erase") /\ DErase(Ev.w, Ev.t) /\ UNCHANGED pend
-  \/ IsEv("cb") /\ Ev.main = TRUE /\ DCbRun(Ev.t) /\ UNCHANGED pend
-  \/ IsEv("leaving") /\ DLeaving(Ev.w) /\ UNCHANGED pend
-  \/ IsEv("end") /\ AllDone /\ threads = {} /\ UNCHANGED dvars /\ UNCHANGED pend
+                  /\ UNCHANGED dvars /\ UNCHANGED <<pend, cbl>>
+  \/ IsEv("body_end") /\ DBodyEnd(Ev.w, Ev.t) /\ UNCHANGED <<pend, cbl>>
+  \/ IsEv("erase") /\ DErase(Ev.w, Ev.t) /\ UNCHANGED <<pend, cbl>>
+  \/ IsEv("cb") /\ Ev.on = cbl[Ev.t] /\ DCbRun(Ev.t) /\ UNCHANGED <<pend, cbl>>
+  \/ IsEv("leaving") /\ DLeaving(Ev.w) /\ UNCHANGED <<pend, cbl>>
+  \/ IsEv("end") /\ AllDone /\ threads = {} /\ UNCHANGED dvars /\ UNCHANGED <<pend, cbl>>
 TSpec == TInit /\ [][TNext]_tvars
 
 Progress == TLCSet(42, IF l > TLCGet(42) THEN l ELSE TLCGet(42))
